@@ -34,9 +34,9 @@ def plans(b, quick):
     data = list(b.valid)
     cfgs = [c for c in b.cfgs if c not in b.draw_cfgs]
     out = [(SJ.gen_cfg(b, 4 if quick else 5, alphabet(b), init='InitOne', nobj=3, cfgs=cfgs, data=data,
-                       seeds=(1,), sizes=(2,), arts=(1,)), {}, 3)]
+                       seeds=(1,), sizes=(9,), arts=(1,)), {}, 3)]
     out.append((SJ.gen_cfg(b, 7, alphabet(b), init='InitOne', nobj=3, cfgs=cfgs, data=data,
-                           seeds=(1,), sizes=(2,), arts=(1, 2)),
+                           seeds=(1,), sizes=(9,), arts=(1, 2)),
                 {'simulate': 'num=%d' % (80 if quick else 800), 'depth': 8}, 3))
     return out
 
@@ -58,7 +58,7 @@ def run(ctx):
     ctx.extra['design_action_coverage'] = SJ.require_coverage(r, ['ToDict', 'FromDict', 'JsonTrip', 'Save', 'Load', 'Sample', 'Query'], ())
     want = []
     for b in B.all_bindings():
-        want.append((b.name, {'setup_past': 1}, plans(b, quick)))
+        want.append((b.name, {'setup_past': 1, 'exact_probe': 1}, plans(b, quick)))
     SJ.run_session_jobs(ctx, 'C14', want, 'harness.props.C14', ('FromDict', 'Load'))
     ctx.exhaustive = False
 
